@@ -159,9 +159,21 @@ func (pe *pipeEnv) credCase(c *credCase) map[string]any {
 		pe.f.mapName(strings.ToLower(host)+":80", pe.peers[0].addr())
 		pe.f.mapName(strings.ToLower(host)+":8080", pe.peers[0].addr())
 	}
+	if c.Req.Host == "originRooted" {
+		host = "origin.test." // the rooted form of the name: the same host
+		pe.f.mapName("origin.test.:80", pe.peers[0].addr())
+		pe.f.mapName("origin.test.:8080", pe.peers[0].addr())
+	}
 	hp := host
-	if c.Req.Port == "8080" {
+	switch c.Req.Port {
+	case "8080":
 		hp = host + ":8080"
+	case "zeros80":
+		hp = host + ":080"
+		pe.f.mapName(host+":080", pe.peers[0].addr())
+	case "empty80":
+		hp = host + ":"
+		pe.f.mapName(host+":", pe.peers[0].addr())
 	}
 	if c.Req.Prior == "otherScheme" {
 		// the same host under the other scheme, asked of the same instance just before (a connection of its own)
